@@ -53,6 +53,14 @@ class Hostile:
         return True
 
 
+# valid hints that are not classes, reachable by name from the functions this module decorates
+C11_ALIAS_LIST = list[int]
+C11_ALIAS_LITERAL = typing.Literal[1]
+C11_ALIAS_UNION = typing.Union[int, str]
+# ... and the same, bound only after the callable naming them was decorated (drive() binds and unbinds them)
+C11_LATER = {'C11_LATER_LIST': list[int], 'C11_LATER_LITERAL': typing.Literal[1], 'C11_LATER_UNION': typing.Union[int, str]}
+
+
 class _NeverEq:
     def __eq__(self, other): return False
     def __ne__(self, other): return True
@@ -100,6 +108,11 @@ def special_forms():
         'TypeVar constraints (1, 2)': lambda: typing.TypeVar('C12', 'a b', 'c d'), 'InitVar[int]': lambda: __import__('dataclasses').InitVar[int],
         'types.UnionType int|str': lambda: int | str, 'types.GenericAlias(list, (1,))': lambda: types.GenericAlias(list, (1,)),
         'types.GenericAlias(int, (str,))': lambda: types.GenericAlias(int, (str,)),
+        # names that resolve, at call time, to a valid hint that is not a class
+        "'C11_ALIAS_LIST'": lambda: 'C11_ALIAS_LIST', "'C11_ALIAS_LITERAL'": lambda: 'C11_ALIAS_LITERAL',
+        "'C11_ALIAS_UNION'": lambda: 'C11_ALIAS_UNION',
+        "'C11_LATER_LIST'": lambda: 'C11_LATER_LIST', "'C11_LATER_LITERAL'": lambda: 'C11_LATER_LITERAL',
+        "'C11_LATER_UNION'": lambda: 'C11_LATER_UNION',
         # validators whose operand is not equal to itself (the operand travels with the generated code)
         'Annotated[float, IsEqual[nan]]': lambda: typing.Annotated[float, IsEqual[float('nan')]],
         'Annotated[object, IsEqual[NeverEq()]]': lambda: typing.Annotated[object, IsEqual[_NeverEq()]],
@@ -239,7 +252,7 @@ def main():
                             f'{api}({label}) raised the private {cls.__name__}: {short(exc, 200)}', stream, idx,
                             dict(api=api, hint=label, exc=short(exc, 300)))
             elif family is not None and not isinstance(exc, family):
-                W.violation(f'wrong-family:{api}:{cls.__name__}',
+                W.violation(f'wrong-family:{api.split(" (")[0]}:{cls.__name__}',
                             f'{api}({label}) raised {cls.__name__}, not a {family.__name__} subclass', stream, idx,
                             dict(api=api, hint=label, exc=short(exc, 300)))
             return
@@ -266,9 +279,16 @@ def main():
                 return a
             f.__annotations__ = {'a': h, 'return': h}
             box['f'] = beartype.beartype(f)
+        for n_ in C11_LATER:
+            globals().pop(n_, None)
         observe('@beartype', label, decorate, stream, idx, BeartypeDecorException)
+        globals().update(C11_LATER)
         if 'f' in box:
             observe('decorated-call', label, lambda: box['f'](subj), stream, idx, BeartypeCallException)
+            # ... and again, and with a class: what a failed first call leaves behind must not change the kind of failure
+            observe('decorated-call (2nd)', label, lambda: box['f'](subj), stream, idx, BeartypeCallException)
+            observe('decorated-call (class)', label, lambda: box['f'](int), stream, idx, BeartypeCallException)
+            observe('decorated-call (class, 2nd)', label, lambda: box['f'](int), stream, idx, BeartypeCallException)
         # the conf-taking entry points once more under one non-default configuration
         for cname, conf in (confs if all_confs else [confs[idx % len(confs)]]):
             drive_conf(label, h, subj, stream, idx, cname, conf)
